@@ -205,7 +205,7 @@ def cgr(seed, runs, maxlen):
             pts = None
         cgr_event(text, size, pts, "py")
     # batches: all clean -> list in argument order; one bad -> ValueError for the whole call
-    for bs in (0, 1, 7, 300):
+    for bs in (0, 1, 7, 300, 1500):
         size = rng.choice(sizes)
         c = pk.CgrComputer(size)
         seqs = ["".join(rng.choice(NUC) for _ in range(rng.randint(0, 40))) for _ in range(bs)]
@@ -215,7 +215,7 @@ def cgr(seed, runs, maxlen):
             cgr_event(s, size, pts, "py-batch")
         if bs > 0:
             bad = list(seqs)
-            j = rng.randrange(bs)
+            j = bs - 1 if bs in (7, 1500) else rng.randrange(bs)      # also: the bad sequence as the last element
             bad[j] = bad[j] + "N"
             try:
                 c.vectorise_batch(bad)
